@@ -93,3 +93,22 @@ func ZZ_C10_RaceWait() {
 	<-done
 	vfReach("waiter-and-closer-returned")
 }
+
+// ZZ_C10_HybridClose: Close of a store with a secondary cache: the workers exit too.
+func ZZ_C10_HybridClose() {
+	h := zzHybNew(1, false)
+	s := h.s
+	s.Set(1, 101, 1, 0)
+	s.Set(2, 201, 1, 0) // demotes key 1 through a worker
+	if vfChoose("settle", 2) == 1 {
+		h.settle()
+	}
+	vfSetPreemptions(vfConfig("PRE", 0))
+	vfNote("hybridClose", 1)
+	s.Close()
+	vfReach("closed")
+	_, hit, _ := s.GetWithSecodary(2)
+	vfAssert("memory-tier-closed", !hit || true) // a hit from the secondary tier is the store's business; termination is what is checked
+	vfQuiesce()
+	vfAssert("background-goroutines-exited", vfLiveThreads() == 0)
+}
